@@ -22,6 +22,7 @@ import (
 	"go/types"
 	"sort"
 	"strings"
+	"sync"
 
 	"golang.org/x/tools/go/ssa"
 
@@ -1814,6 +1815,7 @@ type boundsOb struct {
 	pos    token.Pos
 	ok     bool
 	detail string
+	in     ssa.Instruction
 }
 
 func (b *boundsFn) obligations() []boundsOb {
@@ -1887,7 +1889,7 @@ func (b *boundsFn) indexOb(d *dbm, in ssa.Instruction, x, idx ssa.Value, count m
 			}
 		}
 	}
-	ob := boundsOb{key: key, pos: in.Pos(), ok: okLo && okHi}
+	ob := boundsOb{key: key, pos: in.Pos(), ok: okLo && okHi, in: in}
 	if !ob.ok {
 		ob.detail = fmt.Sprintf("cannot show 0 <= index < %s on every path: index in [%s, %s] relative to zero; lower bound %v, upper bound %v", bound, fmtB(lo), fmtB(hi), okLo, okHi)
 	}
@@ -2014,7 +2016,7 @@ func (b *boundsFn) sliceOb(d *dbm, x *ssa.Slice, count map[string]int) boundsOb 
 			}
 		}
 	}
-	ob := boundsOb{key: key, pos: x.Pos(), ok: ok}
+	ob := boundsOb{key: key, pos: x.Pos(), ok: ok, in: x}
 	if !ok {
 		ob.detail = "cannot show the slice bounds are in range on every path: " + strings.Join(why, "; ")
 	}
@@ -2304,4 +2306,39 @@ func BoundsSurvey(r *core.Run, pkgs map[string]bool, verbose bool) {
 			}
 		}
 	}
+}
+
+// ---------------------------------------------------------------------------
+// shared access for the cursor engine: is this index/slice instruction proven in range by the bounds engine?
+
+type sharedBounds struct {
+	mu  sync.Mutex
+	e   *boundsEngine
+	res map[*ssa.Function]map[ssa.Instruction]bool
+}
+
+var sharedBoundsByProg sync.Map // *core.Program -> *sharedBounds
+
+func boundsProven(prog *core.Program, fn *ssa.Function, in ssa.Instruction) bool {
+	v, _ := sharedBoundsByProg.LoadOrStore(prog, &sharedBounds{res: map[*ssa.Function]map[ssa.Instruction]bool{}})
+	sb := v.(*sharedBounds)
+	sb.mu.Lock()
+	defer sb.mu.Unlock()
+	if sb.e == nil {
+		r := core.NewRun("", "quick", 0, prog)
+		sb.e = &boundsEngine{r: r, glen: globalLens(r), done: map[*ssa.Function]*boundsFn{}, busy: map[*ssa.Function]bool{}, summs: map[*ssa.Function]*boundsSummary{}}
+	}
+	m, ok := sb.res[fn]
+	if !ok {
+		m = map[ssa.Instruction]bool{}
+		if b := sb.e.get(fn); b != nil {
+			for _, ob := range b.obligations() {
+				if ob.in != nil {
+					m[ob.in] = ob.ok
+				}
+			}
+		}
+		sb.res[fn] = m
+	}
+	return m[in]
 }
